@@ -325,6 +325,37 @@ def norm_dec(d):
     return list(d)
 
 
+TRANSFER_HEADS = {'beq', 'bne', 'blt', 'bge', 'bltu', 'bgeu', 'beqz', 'bnez', 'blez', 'bgez', 'bltz', 'bgtz', 'bgt', 'ble', 'bgtu',
+                  'bleu', 'j', 'jal', 'call', 'tail'}
+
+
+def compress_failure_cause(source, rc, ru):
+    """Names the one cause that is a known finding (K1): the line refused with -c is a pc-relative transfer to a LABEL and an
+    `align` stands between the transfer and the label -- the align absorbs what compression saves on one side, so the distance
+    can be larger than without compression.  Anything else is 'other'."""
+    if rc.get('status') != 'ASM' or not rc.get('line'):
+        return 'other'
+    lines = source.split('\n')
+    n = rc['line']
+    if not (1 <= n <= len(lines)):
+        return 'other'
+    toks = [t for t in lines[n - 1].split('#')[0].replace(',', ' ').split() if t]
+    if not toks or toks[0].lower() not in TRANSFER_HEADS:
+        return 'other'
+    target = toks[-1]
+    labels = dict(ru.get('labels', []))
+    if target not in labels or target in dict(ru.get('constants', [])):
+        return 'other'
+    defs = [i for i, l in enumerate(lines, start=1) if l.split('#')[0].strip() == target + ':']
+    if not defs:
+        return 'other'
+    lo, hi = sorted((n, defs[0]))
+    between = [l.split('#')[0].split() for l in lines[lo:hi - 1]]
+    if any(t and t[0].lower() == 'align' for t in between):
+        return 'align-between-transfer-and-target'
+    return 'other'
+
+
 def check_pair(ctx, prog, ru, rc, prop):
     """ru / rc: real results without / with compression of the same program."""
     inp = {'source': prog['source']}
@@ -333,7 +364,8 @@ def check_pair(ctx, prog, ru, rc, prop):
     if rc['status'] != 'OK':
         if prop == 'C12':
             ctx.cex('assembles without compression but with -c fails: {}'.format(pipeline.brief(rc)), inp, pipeline.brief(rc), 'OK',
-                    {'kind': 'compress-fails', 'status': rc['status'], 'exn': rc.get('cls', 'AssemblerError'), 'scenario': prog.get('scenario')})
+                    {'kind': 'compress-fails', 'status': rc['status'], 'exn': rc.get('cls', 'AssemblerError'), 'scenario': prog.get('scenario'),
+                     'cause': compress_failure_cause(prog['source'], rc, ru)})
         return
     if prop == 'C20':
         if len(rc['bytes']) > len(ru['bytes']):
